@@ -389,6 +389,8 @@ def set_default_doc(param, emit_default_doc=True):
                 default=(
                     "None"  # not the internal code-quoted spelling, which does not read back as None
                     if _param["default"] is not None and _param["default"] in none_types
+                    else '""'  # `quote("")` is `""`: the prose would read "Defaults to " and nothing
+                    if isinstance(_param["default"], str) and not _param["default"]
                     else quote(_param["default"])
                     if (
                         needs_quoting(_param.get("typ"))
